@@ -37,3 +37,9 @@ Definition c20_view_of (o p : c20_obj) : Prop := incl (c20_cells o) (c20_cells p
 (* one Python-level write: (register, index, value) *)
 Definition c20_writes (cfg : c20_cfg) (st : c20_state) (ws : list (nat * Z * Q)) : c20_state :=
   fst (c20_run cfg st (map (fun w => C20_Set (fst (fst w)) (snd (fst w)) (snd w)) ws)).
+
+(* a NumPy array is a strided view: its cells are the arithmetic progression its buffer_info describes
+   (true of every array obtained from contiguous storage by basic slicing, for positive and negative steps) *)
+Definition c20_strided (cells : list nat) : Prop :=
+  let bi := c20_buffer_info cells in
+  forall i, i < length cells -> Z.of_nat (nth i cells 0) = (c20_bi_ptr bi + Z.of_nat i * c20_bi_stride bi)%Z.
